@@ -3,3 +3,5 @@ import DinoProofs.Properties.C03
 import DinoProofs.Properties.C06
 import DinoProofs.Properties.C15
 import DinoProofs.Lemmas.SH
+import DinoProofs.Properties.C20
+import DinoProofs.Properties.C18
